@@ -1311,6 +1311,10 @@ namespace Pistache::Async
             {
                 std::lock_guard<std::mutex> guard(data->mtx);
 
+                // Only the first rejection settles the promise; a later one is ignored
+                if (data->rejected)
+                    return;
+
                 data->rejected = true;
                 data->reject(exc);
             }
@@ -1371,6 +1375,10 @@ namespace Pistache::Async
             static void reject(std::exception_ptr exc, Data& data)
             {
                 std::lock_guard<std::mutex> guard(data->mtx);
+
+                // The promise has already taken the first outcome; a later one is ignored
+                if (data->done)
+                    return;
 
                 data->done = true;
                 data->reject(exc);
